@@ -238,6 +238,10 @@ func (nak *NesterAccountKeeper) SetAccount(account EthAccount) error {
 func (nak *NesterAccountKeeper) RemoveAccount(account EthAccount) {
 	prefixKey := append(nak.prefix, account.Address.Bytes()...)
 	nak.state.Delete(prefixKey)
+	// the balance is kept in the balance store: a removed account leaves nothing behind there either
+	if account.Coins.Amount != nil {
+		_ = nak.balances.SetBalance(account.Address, account.Coins.Currency.NewCoinFromInt(0))
+	}
 }
 
 func (nak *NesterAccountKeeper) GetNonce(addr keys.Address) uint64 {
